@@ -8,6 +8,8 @@ correspondence run compares with the real `Eval` — for *all* well-formed strin
 arbitrary list `rs` of Unicode scalar values), all byte strings and all integers.
 -/
 import Gms.Lemmas.ScalarFn
+import Gms.Lemmas.NodeRows
+import Gms.Model.ScalarRows
 import Gms.Generated.C34
 
 namespace Gms.C34
@@ -752,6 +754,78 @@ theorem spec_eq_impl_outside_regions (name : String) (args : List Val) (h : regi
     spec name args = impl name args := by
   unfold spec; rw [h]
 
+/-! ## Statement level: one node, one `Eval` per row, results read after the last row
+
+A function node is built once per statement and evaluated once per row; a client that fetches the
+whole result set (or a Sort/Distinct/Group node that buffers rows) reads the value of an early row
+only after the later rows were evaluated. `Gms.NodeRows` models the memory behind a `[]byte`
+result (a reference into a backing array): `runFresh` is the discipline of the modelled nodes —
+every `Eval` builds its result in storage of its own, the node has no field to keep anything in
+(`facts_nodes_stateless`) — `runScratch` the discipline the property forbids (a buffer kept in the
+node, grown only when a row needs more, its slice handed out as the value). -/
+
+open Gms.NodeRows in
+/-- The results of a statement, read after its last row, are the single-call results row by row:
+what the driver answers for a `rows` / `stmt` case (`evalRows`) is the reading of the memory model
+under the stateless discipline, from any initial heap. -/
+theorem rows_are_single_calls (name : String) (h : Heap) (rows : List (List Val)) :
+    observe (runFresh (fun r => blobOf (impl name r)) h rows) = (evalRows name rows).map blobOf := by
+  rw [fresh_observe]; simp [evalRows]
+
+open Gms.NodeRows in
+/-- (oracle R1) What is read for the first rows right after they were evaluated is what is read
+after the last row of the statement: evaluating more rows changes nothing that was handed out. -/
+theorem rows_prefix_stable {ρ : Type} (f : ρ → NodeRows.Bytes) (h : Heap) (a b : List ρ) :
+    (observe (runFresh f h (a ++ b))).take a.length = observe (runFresh f h a) := by
+  rw [fresh_observe, fresh_observe, List.map_append]
+  simp
+
+open Gms.NodeRows in
+/-- (oracle R2) The reading of a row depends on that row alone — not on the rows evaluated before
+it, not on the rows evaluated after it, not on the heap the statement started from. -/
+theorem rows_row_independent {ρ : Type} (f : ρ → NodeRows.Bytes) (h h' : Heap) (pre post pre' post' : List ρ) (x : ρ)
+    (hl : pre.length = pre'.length) :
+    (observe (runFresh f h (pre ++ x :: post)))[pre.length]? = some (f x) ∧
+    (observe (runFresh f h' (pre' ++ x :: post')))[pre.length]? = some (f x) := by
+  rw [fresh_observe, fresh_observe]
+  constructor
+  · simp
+  · rw [hl]; simp
+
+example : evalRows "unhex" [[.text [0x36, 0x31, 0x36, 0x32]], [.null], [.text [0x37, 0x38]]] =
+    [rblob [0x61, 0x62], rnull, rblob [0x78]] := by decide
+
+open Gms.NodeRows in
+/-- The forbidden discipline: when the second row's result fits into what the first one needed, the
+node hands out the same array twice, and after the second row the FIRST value reads as the second
+result followed by what is left of its own tail. -/
+theorem scratch_overwrites {ρ : Type} (f : ρ → NodeRows.Bytes) (a b : ρ) (hlen : (f b).length ≤ (f a).length) :
+    observeScratch (runScratch f ([], none) [a, b]) = [f b ++ (f a).drop (f b).length, f b] :=
+  scratch_fitting_row_overwrites f a b hlen
+
+open Gms.NodeRows in
+/-- … so a node with a scratch buffer breaks every two-row statement whose results have the same
+length and differ (a column of hashes, ids, words): the statement's results are not the
+single-call results. -/
+theorem scratch_breaks_statement {ρ : Type} (f : ρ → NodeRows.Bytes) (a b : ρ)
+    (hlen : (f b).length = (f a).length) (hne : f a ≠ f b) :
+    observeScratch (runScratch f ([], none) [a, b]) ≠ [a, b].map f := by
+  rw [scratch_fitting_row_overwrites f a b (Nat.le_of_eq hlen)]
+  intro h
+  have h1 := (List.cons.inj h).1
+  rw [hlen, List.drop_length, List.append_nil] at h1
+  exact hne h1.symm
+
+open Gms.NodeRows in
+/-- Non-vacuity of both, on the model of UNHEX itself: `SELECT UNHEX(c) FROM t` over the rows
+'616263', '78797A' reads ["abc", "xyz"] under the stateless discipline and ["xyz", "xyz"] with a
+scratch buffer in the node — HEX/UNHEX stop being an inverse pair as seen through the result set. -/
+theorem scratch_unhex_witness :
+    let f := fun r => blobOf (impl "unhex" r)
+    let rows : List (List Val) := [[.text [0x36, 0x31, 0x36, 0x32, 0x36, 0x33]], [.text [0x37, 0x38, 0x37, 0x39, 0x37, 0x41]]]
+    observe (runFresh f [] rows) = [[0x61, 0x62, 0x63], [0x78, 0x79, 0x7A]] ∧
+    observeScratch (runScratch f ([], none) rows) = [[0x78, 0x79, 0x7A], [0x78, 0x79, 0x7A]] := by decide
+
 /-! ## Regenerated facts -/
 
 def expectedRegistry : List (String × String × String) :=
@@ -814,5 +888,30 @@ theorem facts_tables :
     (List.range 128).map lowerByte = Generated.C34.lowerAscii ∧
     (List.range 64).map b64Char = Generated.C34.base64Alphabet ∧
     toBase64 [0x61] = Generated.C34.base64OfA := by decide
+
+/-- The field types a stateless node may have: children, result type, name / mode. -/
+def configFieldTypes : List String :=
+  ["sql.Expression", "[]sql.Expression", "sql.Type", "string", "function.CountType", "function.padType"]
+
+set_option maxRecDepth 100000 in
+/-- **No modelled node keeps state between rows.** Regenerated on every run: (1) the node the
+registry constructor of every modelled function builds (reflection on the freshly compiled code,
+embedded structs flattened) has only fields of child / configuration types — no `[]byte`, buffer,
+builder, map, pointer, counter to keep a row's data in; (2) no method of these node types, nor of
+the structs they embed, contains a statement that writes through its receiver (go/ast: assignment,
+`++`/`--`, `copy`/`append` rooted at the receiver). This is what licenses `runFresh` (and
+`evalRows`) as the statement-level Impl model; a scratch field or a write in `Eval` breaks it. -/
+theorem facts_nodes_stateless :
+    Generated.C34.nodeReceiverWrites = [] ∧
+    (∀ n ∈ Generated.C34.nodeFields, ∀ f ∈ n.2.2, f.2 ∈ configFieldTypes) ∧
+    (∀ m ∈ modelled, m ∈ Generated.C34.nodeFields.map (·.1)) ∧
+    Generated.C34.nodeFields.length = modelled.length := by decide
+
+/-- … and the method scan covered the node type of every modelled function and the three
+expression stubs / `UnaryFunc` they embed. -/
+theorem facts_nodes_scanned :
+    (∀ n ∈ Generated.C34.nodeFields, n.2.1 ∈ Generated.C34.nodeStructs) ∧
+    (∀ s ∈ ["sql/expression.UnaryExpressionStub", "sql/expression.BinaryExpressionStub",
+            "sql/expression.NaryExpression", "sql/expression/function.UnaryFunc"], s ∈ Generated.C34.nodeStructs) := by decide
 
 end Gms.C34
